@@ -6,6 +6,8 @@ use crate::verdict::{self, Meta};
 use std::sync::Arc;
 use std::time::Instant;
 
+pub mod c02;
+pub mod c04;
 pub mod c05;
 pub mod c13;
 pub mod c14;
@@ -72,6 +74,8 @@ pub struct Check {
 
 pub fn get(id: &str, tier: Tier) -> Option<Check> {
     Some(match id {
+        "C02" => c02::check(tier),
+        "C04" => c04::check(tier),
         "C05" => c05::check(tier),
         "C13" => c13::check(tier),
         "C14" => c14::check(tier),
@@ -82,7 +86,7 @@ pub fn get(id: &str, tier: Tier) -> Option<Check> {
     })
 }
 
-pub const ALL: &[&str] = &["C05", "C13", "C14", "C15", "C18", "C20"];
+pub const ALL: &[&str] = &["C02", "C04", "C05", "C13", "C14", "C15", "C18", "C20"];
 
 /// Stream-local seed for scenario `idx`.
 pub fn sseed(ctx: &Ctx, stream: &str, idx: u64) -> u64 {
